@@ -188,6 +188,14 @@ impl Searcher {
                 }
             });
 
+            // The first iteration always runs to completion so that there is a move to
+            // report, however early the stop request arrives
+            let token = if depth == 0 {
+                CancellationToken::new().1
+            } else {
+                token.clone()
+            };
+
             struct ThreadData {
                 rng: ChaCha8Rng,
                 game_state: State,
@@ -452,7 +460,14 @@ impl Searcher {
             #[cfg(weechess_verif)]
             verif::wb_simple("Quiesce");
 
-            return Self::quiescence_search(game_state, evaluator, current_depth, alpha, beta);
+            return Self::quiescence_search(
+                game_state,
+                evaluator,
+                token,
+                current_depth,
+                alpha,
+                beta,
+            );
         }
 
         let mut evaluation_type = EvaluationKind::UpperBound;
@@ -595,10 +610,17 @@ impl Searcher {
     fn quiescence_search(
         game_state: &State,
         evaluator: &eval::Evaluator,
+        token: &CancellationToken,
         depth: usize,
         alpha: eval::Evaluation,
         beta: eval::Evaluation,
     ) -> Result<eval::Evaluation, SearchInterrupt> {
+        // Capture sequences are not depth limited and can take far longer than the
+        // rest of an iteration, so a stop request has to be noticed here as well
+        if token.is_cancelled() {
+            return Err(SearchInterrupt);
+        }
+
         let mut buffer = MoveGenerationBuffer::new();
         MoveGenerator::compute_legal_moves_into(&game_state, &mut buffer);
 
@@ -645,7 +667,7 @@ impl Searcher {
             }
 
             let evaluation =
-                -Self::quiescence_search(new_state, evaluator, depth + 1, -beta, -alpha)?;
+                -Self::quiescence_search(new_state, evaluator, token, depth + 1, -beta, -alpha)?;
             if evaluation >= beta {
                 return Ok(beta);
             }
